@@ -71,10 +71,13 @@ func c06Exec(cs progCase) (ds []disc, labels map[string]bool) {
 			}
 		}
 		sd := r.Step(op)
-		if len(sd) == 0 {
+		// long programs (the many-parts scenarios): the full invariant only after every 97th
+		// part upload, and after everything that is not a part upload
+		sparse := len(cs.Ops) > 300 && op.K == "part" && i%97 != 0
+		if len(sd) == 0 && !sparse {
 			sd = r.Invariant(c06Keys)
 		}
-		if len(sd) == 0 {
+		if len(sd) == 0 && !sparse {
 			for _, u := range r.M.Uploads {
 				if d := r.CheckUpload(u); len(d) > 0 {
 					sd = append(sd, d...)
@@ -263,6 +266,36 @@ func c06Run(t *testing.T, c *evid.Collector) {
 				{{K: "put", B: "bk0", Key: "m0", Body: b("old")}, init0, {K: "part", Ref: 0, PartN: 2, Body: b("two")}, {K: "part", Ref: 0, PartN: 5, Body: b("five")}, {K: "complete", Ref: 0, Parts: []prog.Part{{N: 5}, {N: 2}}}, {K: "complete", Ref: 0, Parts: []prog.Part{{N: 2}, {N: 3}}}, {K: "complete", Ref: 0, Parts: []prog.Part{{N: 2, Tag: "wrong"}}}, {K: "abort", Ref: 0}, {K: "get", B: "bk0", Key: "m0"}},
 				{init0, init0, {K: "part", Ref: 0, PartN: 1, Body: b("first upload")}, {K: "part", Ref: 1, PartN: 1, Body: b("second upload")}, {K: "complete", Ref: 1, Parts: []prog.Part{{N: 1}}}, {K: "complete", Ref: 0, Parts: []prog.Part{{N: 1}}}},
 				{init0, {K: "part", Ref: 0, PartN: 0, Body: b("x")}, {K: "part", Ref: 0, PartN: 10001, Body: b("x")}, {K: "part", Ref: 0, PartN: 3, Body: b("x")}, {K: "complete", Ref: 0, Parts: []prog.Part{{N: 3}}}, {K: "part", Ref: 0, PartN: 3, Body: b("late")}},
+			}
+			if k == backends.Mem || k == backends.MultiMem || (evid.Thorough() && k == backends.Bolt) {
+				// more parts than any listing page holds (1000) and, thorough, the most an upload
+				// can have (10000): two uploads of the key with the same part numbers (with gaps),
+				// every 7th part re-uploaded; one is completed with all parts, the other with every
+				// other one
+				for _, n := range []int{1001, evid.Scale(0, 10000)} {
+					if n == 0 {
+						continue
+					}
+					step := 10000 / n
+					many := []prog.Op{{K: "put", B: "bk0", Key: "m0", Body: b("previous contents")}, init0, init0}
+					var all, other []prog.Part
+					for j := 1; j <= n; j++ {
+						pn := j * step
+						for ref := 0; ref < 2; ref++ {
+							many = append(many, prog.Op{K: "part", Ref: ref, PartN: pn, Body: b(fmt.Sprintf("<%d.%d>", ref, pn))})
+							if (j+ref)%7 == 0 {
+								many = append(many, prog.Op{K: "part", Ref: ref, PartN: pn, Body: b(fmt.Sprintf("<%d.%d again>", ref, pn))})
+							}
+						}
+						all = append(all, prog.Part{N: pn})
+						if j%2 == 0 {
+							other = append(other, prog.Part{N: pn})
+						}
+					}
+					many = append(many, prog.Op{K: "complete", Ref: 0, Parts: all}, prog.Op{K: "get", B: "bk0", Key: "m0"},
+						prog.Op{K: "complete", Ref: 1, Parts: other}, prog.Op{K: "get", B: "bk0", Key: "m0"})
+					scen = append(scen, many)
+				}
 			}
 			for _, ops := range scen {
 				cs := progCase{Backend: k, Ops: ops}
